@@ -20,6 +20,13 @@ func (g *G) CDXClassNode(id string) *sbom.Node {
 		n.Type = sbom.Node_FILE
 	} else {
 		n.PrimaryPurpose = []sbom.Purpose{Pick(g, cdxNativePurposes)}
+		// several purposes on some nodes (the component type is that of the first); decided without a further draw
+		switch n.PrimaryPurpose[0] {
+		case sbom.Purpose_LIBRARY:
+			n.PrimaryPurpose = append(n.PrimaryPurpose, sbom.Purpose_CONTAINER)
+		case sbom.Purpose_FRAMEWORK:
+			n.PrimaryPurpose = append(n.PrimaryPurpose, sbom.Purpose_OPERATING_SYSTEM, sbom.Purpose_LIBRARY)
+		}
 	}
 	if on() {
 		n.Version = g.plain()
